@@ -82,6 +82,38 @@ func genSpec(rng *rand.Rand) rpcSpec {
 func gen(rng *rand.Rand, fam string) scenario {
 	sc := scenario{Fam: fam, MaxStreams: vlib.Pick(rng, 1, 1, 2, 2, 3, 4, 0), StreamWorkers: vlib.Pick(rng, 0, 0, 0, 2, 8),
 		WaitForHandlers: rng.Intn(4) == 0}
+	if fam == "parked" {
+		// Directed: fill the handler quota of every connection with handlers that
+		// ignore their context, cancel those RPCs at the client (the streams go, the
+		// handlers stay), let the next RPC of every worker park the server's reader
+		// behind the quota, then call a lone Stop under WaitForHandlers and only then
+		// let handlers return: the parked streams' handlers are spawned while Stop is
+		// on its way out.
+		sc.MaxStreams = vlib.Pick(rng, 1, 1, 2)
+		sc.WaitForHandlers = rng.Intn(5) != 0
+		nch := 1 + rng.Intn(2)
+		sc.Initial = nch
+		for c := 0; c < nch; c++ {
+			var ws [][]rpcSpec
+			for w := 0; w < sc.MaxStreams+rng.Intn(2); w++ {
+				rs := []rpcSpec{{Kind: "stubborn", Unary: rng.Intn(2) == 0, Code: handlerCodes[rng.Intn(len(handlerCodes))]}}
+				for k := 0; k < 1+rng.Intn(3); k++ {
+					sp := genSpec(rng)
+					if sp.Kind == "stubborn" {
+						sp.Kind = "gated"
+					}
+					rs = append(rs, sp)
+				}
+				ws = append(ws, rs)
+			}
+			sc.Chans = append(sc.Chans, ws)
+		}
+		sc.Steps = []step{{K: "wait"}, {K: "cancelstub"}, {K: "wait"}, {K: vlib.Pick(rng, "stop", "stop", "stop", "gstop"), N: 1}, {K: "wait"}}
+		for k := 0; k < 2+rng.Intn(4); k++ {
+			sc.Steps = append(sc.Steps, step{K: vlib.Pick(rng, "release", "release", "releaseall", "sleep"), N: 1 + rng.Intn(2), D: 20 * time.Millisecond})
+		}
+		return sc
+	}
 	if fam == "hostile" {
 		sc.MaxStreams = vlib.Pick(rng, 1, 2, 3, 5)
 		n := 6 + rng.Intn(30)
@@ -639,6 +671,15 @@ func (m *monitor) atQuiescence(label string) {
 // sawViolation is set once any case of this process reported a violation.
 var sawViolation atomic.Bool
 
+// stepTag keeps the signatures of the two check steps apart: the driver sums
+// distinct counts.
+func stepTag() string {
+	if light() > 1 {
+		return "race-step/"
+	}
+	return "plain-step/"
+}
+
 func light() int {
 	if os.Getenv("VERIF_LIGHT") != "" {
 		return 6
@@ -760,6 +801,16 @@ func runClients(sc scenario, emit func(key, msg string)) *result {
 				m.cnt["client_cancels"]++
 			}
 			m.mu.Unlock()
+		case "cancelstub":
+			m.mu.Lock()
+			for _, r := range m.rpcs {
+				if r.started && !r.finished && !r.cancelled && r.spec.Kind == "stubborn" {
+					r.cancelled = true
+					r.cancel()
+					m.cnt["client_cancels"]++
+				}
+			}
+			m.mu.Unlock()
 		case "gstop":
 			st.issue(s.N%2 == 0, "gstop")
 		case "stop":
@@ -863,7 +914,7 @@ func runClients(sc scenario, emit func(key, msg string)) *result {
 			ks = append(ks, k)
 		}
 		sort.Strings(ks)
-		res.sig = fmt.Sprintf("clients/stops=%s/limit=%d/atlimit=%v/afterstop=%v/%v", kinds, sc.MaxStreams, res.counters["entries_at_exact_limit"] > 0, res.counters["entries_after_stop_returned"] > 0, ks)
+		res.sig = fmt.Sprintf(sc.Fam+"/stops=%s/limit=%d/atlimit=%v/afterstop=%v/%v", kinds, sc.MaxStreams, res.counters["entries_at_exact_limit"] > 0, res.counters["entries_after_stop_returned"] > 0, ks)
 	}
 	m.mu.Unlock()
 	return res
@@ -1073,7 +1124,7 @@ func runFam(t *testing.T, r *vlib.Run, fam string, n int) {
 			}
 		}
 		if res.sig != "" {
-			r.Nontrivial(res.sig)
+			r.Nontrivial(stepTag() + res.sig)
 		}
 		if i < 2 {
 			r.Sample(map[string]any{"family": fam, "max_streams": sc.MaxStreams, "wait_for_handlers": sc.WaitForHandlers, "steps": sc.Steps, "counters": res.counters})
@@ -1085,9 +1136,10 @@ func TestVerifC25(t *testing.T) {
 	r := vlib.Start(t, "C25")
 	runFam(t, r, "clients", r.N(1500, 24000)/light())
 	runFam(t, r, "hostile", r.N(1000, 16000)/light())
+	runFam(t, r, "parked", r.N(1200, 12000)/light())
 	r.Finish(vlib.Spec{
 		Level: "exploration",
-		Rule:  "real grpc.Server (unary + streaming methods, MaxConcurrentStreams in {unset,1..5}, NumStreamWorkers in {0,2,8}, WaitForHandlers on in 1/4) whose handlers log entry/exit and block on a gate or ctx (gated), on a gate only (stubborn) or on a virtual timer; family clients: 1-5 real channels x 1-5 workers issuing 2-8 sequential RPCs each, 10-45 steps: release 1-3 gates, cancel an open RPC at the client, virtual sleeps, GracefulStop / Stop / both at the same instant (up to 3 stop operations), channels created after the stop; family hostile: a scripted HTTP/2 client that ignores MAX_CONCURRENT_STREAMS and GOAWAY, opens 6-35 streams in bursts, resets some and opens more after the shutdown was announced. Oracles: at every GracefulStop return (and Stop return under WaitForHandlers) no handler is running and none is entered later; without Stop every RPC whose handler was entered and that the client did not cancel completes with exactly the handler's code and message; an RPC started after (stop call + quiescence) never reaches a handler; at (Stop call + quiescence) and at Stop's return every running handler's context is done; an RPC whose handler was unfinished at Stop's return is never OK at the client; handlers running per connection <= MaxConcurrentStreams at every handler entry; no handler entered twice; after opening all gates every stop call returns and every RPC ends. Non-trivial = a stop operation ran and at least one handler was entered; distinct = (family, sequence of stop kinds, limit, limit reached exactly, entries after Stop, which status oracles applied).",
+		Rule:  "real grpc.Server (unary + streaming methods, MaxConcurrentStreams in {unset,1..5}, NumStreamWorkers in {0,2,8}, WaitForHandlers on in 1/4) whose handlers log entry/exit and block on a gate or ctx (gated), on a gate only (stubborn) or on a virtual timer; family clients: 1-5 real channels x 1-5 workers issuing 2-8 sequential RPCs each, 10-45 steps: release 1-3 gates, cancel an open RPC at the client, virtual sleeps, GracefulStop / Stop / both at the same instant (up to 3 stop operations), channels created after the stop; family parked: the directed sequence 'fill every connection's handler quota with stubborn handlers, cancel those RPCs, let the next RPC of each worker park the server's reader behind the quota, lone Stop (WaitForHandlers in 4/5) or GracefulStop, then release'; family hostile: a scripted HTTP/2 client that ignores MAX_CONCURRENT_STREAMS and GOAWAY, opens 6-35 streams in bursts, resets some and opens more after the shutdown was announced. Oracles: at every GracefulStop return (and Stop return under WaitForHandlers) no handler is running and none is entered later; without Stop every RPC whose handler was entered and that the client did not cancel completes with exactly the handler's code and message; an RPC started after (stop call + quiescence) never reaches a handler; at (Stop call + quiescence) and at Stop's return every running handler's context is done; an RPC whose handler was unfinished at Stop's return is never OK at the client; handlers running per connection <= MaxConcurrentStreams at every handler entry; no handler entered twice; after opening all gates every stop call returns and every RPC ends. Non-trivial = a stop operation ran and at least one handler was entered; distinct = (family, sequence of stop kinds, limit, limit reached exactly, entries after Stop, which status oracles applied).",
 		Assumptions: []string{"connections are told apart by the remote address the test listener assigns",
 			"'accepted afterwards' is judged for RPCs the client starts after the stop call plus one exact quiescent point: streams already in flight or parked behind the handler quota when the stop call is made are legitimately served later",
 			"a handler's exit is stamped before it returns to grpc, its entry after grpc called it, so the monitored running-set is a subset of the real one"},
